@@ -2904,6 +2904,10 @@ func (uconn *UConn) ApplyPreset(p *ClientHelloSpec) error {
 					}
 					uconn.HandshakeState.State13.KeyShareKeys.Mlkem = mlkemKey
 					uconn.HandshakeState.State13.KeyShareKeys.MlkemEcdhe = ecdheKey
+					if uconn.HandshakeState.State13.KeyShareKeys.Ecdhe == nil {
+						// a hello whose only key share is the hybrid one still has its X25519 key here
+						uconn.HandshakeState.State13.KeyShareKeys.Ecdhe = ecdheKey
+					}
 				} else {
 					ecdheKey, err := generateECDHEKey(uconn.config.rand(), curveID)
 					if err != nil {
@@ -2916,6 +2920,9 @@ func (uconn *UConn) ApplyPreset(p *ClientHelloSpec) error {
 						// only do this once for the first non-grease curve
 						uconn.HandshakeState.State13.KeyShareKeys.Ecdhe = ecdheKey
 						preferredCurveIsSet = true
+					} else {
+						// keep the key of every further share: the server may select any of them
+						uconn.HandshakeState.State13.KeyShareKeys.ExtraEcdhe = append(uconn.HandshakeState.State13.KeyShareKeys.ExtraEcdhe, ecdheKey)
 					}
 				}
 			}
